@@ -46,6 +46,21 @@ def peak_cases(rng, tier):
     one('peak-dd-then-6node', t, ncell=3, power_order=1, zero_cells=(2,))
     one('peak-lowfi', bundle_type(3, use_low_fidelity_model=True),
         pins=False)
+    # the same kinds of problem written in other unit systems: the tables
+    # print temperatures and heights in the requested units
+    from harness import unitsys
+    by = dict(out)
+    for k, u in (('peak-top', {'length': 'cm', 'temperature': 'c',
+                               'mass_flow_rate': 'kg/min'}),
+                 ('peak-middle-dd', {'length': 'in', 'temperature': 'f',
+                                     'mass_flow_rate': 'lb/hr'}),
+                 ('peak-dd-then-single', {'length': 'mm', 'temperature': 'k',
+                                          'mass_flow_rate': 'kg/s'}),
+                 ('peak-dd-then-6node', {'length': 'ft', 'temperature': 'c',
+                                         'mass_flow_rate': 'lb/s'})):
+        c = unitsys.case_in_units(by[k], u)
+        c['_truth'] = by[k]
+        out.append((f'{k}-{u["length"]}-{u["temperature"]}', c))
     cl = scenarios.core_lattice(rng, tier)
     out.append(('peak-core-dd-unrodded', with_pins(copy.deepcopy(cl[2][1]))))
     if tier == 'thorough':
